@@ -117,6 +117,16 @@ def _main(func_path: str) -> int:
                     payload = pickle.dumps(("error", "".join(traceback.format_exception(type(e), e, e.__traceback__))[-3000:]))
                 with os.fdopen(w, "wb") as fh:
                     fh.write(payload)
+                if os.environ.get("COVERAGE_PROCESS_START"):  # tools/coverage_run.sh: os._exit skips atexit
+                    try:
+                        import coverage
+
+                        cov = coverage.Coverage.current()
+                        if cov is not None:
+                            cov.stop()
+                            cov.save()
+                    except Exception:  # noqa: BLE001
+                        pass
             finally:
                 os._exit(0)
         os.close(w)
